@@ -279,6 +279,9 @@ W.fields[('CFGGen', '_generating_symbols')] = lambda o: OPTSET.make(isnone=o.gen
 W.fields[('CFGGen', '_generating_symbols', 'set')] = lambda base, val: base.t.update(base.t.update(base, 'gen', val), 'gen_none', Sym(TBool, BoolVal(False)))
 W.fields[('CFGGen', '_nullable_symbols')] = lambda o: OPTSET.make(isnone=o.nul_none, val=o.nul)
 W.fields[('CFGGen', '_nullable_symbols', 'set')] = lambda base, val: base.t.update(base.t.update(base, 'nul', val), 'nul_none', Sym(TBool, BoolVal(False)))
+# set.copy() of the memo (fix: the getters hand out a copy): the same set as a value - that the copy is a *different object* is what the value-level view
+# cannot say; the C19 histories generating+mutate / nullable+mutate check it at run time.  None.copy() would raise: excluded by the precondition.
+W.contract(Contract('OptSetOb.copy', [('self', OPTSET)], ret=OPTSET, requires=lambda o: Not(o.self.isnone.term), pure=lambda o: o.self))
 def is_gns(S, G, B): return ForAll([x], Select(S, x) == And(x != EPSOB, Select(GNS(G.P.term, B), x)))
 def memo_ok(G):
     """representation invariant of the memo fields: None, or the set the worklist computes"""
